@@ -9,6 +9,7 @@ THEOREMS = {
     "C04": ["C04_shx_layout", "C04_entries", "C04_entries_address_records", "C04_reader", "C04_hint_and_count"],
     "C14": ["C14_index_governs", "C14_iteration_is_index_order", "C14_nth_agrees"],
     "C15": ["C15_history", "C15_nth_and_count_stable", "C15_iteration", "C15_partial_iteration", "C15_positions"],
+    "C05": ["C05_shape_box", "C05_range_is_box", "C05_header_box", "C05_header_absent"],
     "C03": ["C03_record", "C03_decodes_conformant"],
     "C09": ["C09_finalize_irrelevant", "C09_files", "C09_finalize_complete", "C09_clean_finalize_silent"],
     "C10": ["C10_reject", "C10_erase"],
@@ -21,7 +22,8 @@ THEOREMS = {
 # theorems whose statement mentions the orientation test (Flocq binary64 arithmetic) inherit the four
 # classical-reals axioms of the standard library through Flocq's definitions
 FLOCQ = set(STDLIB_AXIOMS_ALLOWED)
-AXIOMS = {"C01_roundtrip_index": FLOCQ, "C04_shx_layout": set(), "C04_entries_address_records": FLOCQ, "C04_reader": FLOCQ,
+AXIOMS = {"C05_shape_box": FLOCQ,
+          "C01_roundtrip_index": FLOCQ, "C04_shx_layout": set(), "C04_entries_address_records": FLOCQ, "C04_reader": FLOCQ,
           "C04_hint_and_count": FLOCQ, "C14_index_governs": FLOCQ, "C14_iteration_is_index_order": FLOCQ, "C14_nth_agrees": FLOCQ,
           "C15_history": FLOCQ, "C15_nth_and_count_stable": FLOCQ, "C15_iteration": FLOCQ, "C15_partial_iteration": FLOCQ,
           "C15_positions": FLOCQ,
